@@ -209,6 +209,13 @@ if junk_n % 2:
     it0 = interp.Interp(h)
     for op in order.UNRELATED: it0.run(op)
     it0.run(["to_proto", [901], True])
+    # ... and unrelated work with a very long number (a float converted digit by digit)
+    from decimal import Decimal as _D
+    _u = h.Module(name="UnrelatedLong")
+    _u.a, _u.b = h.Signal(), h.Signal()
+    _u.r = h.R(r=h.Prefixed(number=_D(1e-6)))(p=_u.a, n=_u.b)
+    _u.m = h.Mos(w=_D(1e-6), l=_D(0.1) * h.prefix.µ)(d=_u.a, g=_u.a, s=_u.b, b=_u.b)
+    h.to_proto(_u)
 for s in seeds:
     scn = order.generate(s)
     try:
@@ -254,7 +261,7 @@ def _ladder():
     Cell.r1 = h.R(r=1)(p=Cell.a, n=Cell.mid)
     Cell.r2 = h.R(r=2)(p=Cell.mid, n=Cell.tap)
     Cell.r3 = h.R(r=3)(p=Cell.tap, n=Cell.q)
-    Cell.r4 = h.R(r=4)(p=Cell.q, n=Cell.b)
+    Cell.r4 = h.R(r=(10 * h.prefix.K) / 7)(p=Cell.q, n=Cell.b)  # a value computed by the program (inexact division)
     Cell.c1 = h.C(c=1)(p=Cell.mid, n=Cell.g)
     Cell.c2 = h.C(c=1)(p=Cell.tap, n=Cell.g)
     Row = h.Module(name="Row")
